@@ -23,7 +23,7 @@ TrCfg == /\ IsEv("mwcfg") /\ scen' = E.label /\ ok' = {} /\ failed' = {} /\ wire
 TrWret == /\ IsEv("wret")
           /\ ok' = IF E.ok THEN ok \cup {<<E.sid, E.id>>} ELSE ok
           /\ failed' = IF E.ok THEN failed ELSE failed \cup {<<E.sid, E.id>>}
-          /\ viol' = viol \cup (IF ~E.ok /\ E.err \notin {"deadline", "ctx"} THEN {V("C20_WriteError", <<E.sid, E.id, E.err>>)} ELSE {})
+          /\ viol' = viol \cup (IF ~E.ok /\ E.err \notin {"deadline", "ctx", "notestablished", "streamclosed"} THEN {V("C20_WriteError", <<E.sid, E.id, E.err>>)} ELSE {})
           /\ l' = l + 1 /\ UNCHANGED <<scen, wire, rds>>
 TrWire == /\ IsEv("wire") /\ wire' = Append(wire, E) /\ l' = l + 1 /\ UNCHANGED <<scen, ok, failed, rds, viol>>
 \* reads of one stream are emitted by that stream's only reader goroutine
